@@ -661,7 +661,7 @@ def rule_pin(ctx: Ctx) -> List[Ob]:
                     obs.append(ob("PIN", "pinned value is a copy of a bound", f, s, ok,
                                   f"{short(s)}" + ("" if ok else ": computed by arithmetic -- off by an ulp, the variable looks free to get_freev")))
     # after the walk the pinned entries stay as they are: the Cauchy point may only be completed on the variables the walk
-    # did not reach (`x_cp[t >= t_cur] = ..`); rebuilding x_cp as a whole recomputes the pinned ones by arithmetic
+    # did not fix (`x_cp[d != 0] = ..`: d is zeroed when a variable is fixed; a mask on t would also hit a variable fixed at a tied breakpoint); rebuilding x_cp as a whole recomputes the pinned ones by arithmetic
     after = f.node.body[f.node.body.index(loops[0]) + 1:]
     for st in after:
         for s in ast.walk(st):
@@ -674,13 +674,15 @@ def rule_pin(ctx: Ctx) -> List[Ob]:
                                       construct=f"after the walk: {short(s, 50)}"))
                     if isinstance(t, ast.Subscript) and src(strip_sub(t)) == "x_cp":
                         m_ = src(t.slice).replace(" ", "")
-                        okm = m_ in ("t>=t_cur", "t_cur<=t", "t>=t_old", "~(t<t_cur)")
+                        FREE_ = ("d!=0", "d!=0.0", "0!=d", "0.0!=d", "~(d==0)", "~(d==0.0)", "np.nonzero(d)", "d.nonzero()", "np.flatnonzero(d)",
+                                 "np.not_equal(d,0)", "np.not_equal(d,0.0)", "d.astype(bool)")
+                        okm = m_ in FREE_
                         if not okm and isinstance(t.slice, ast.Name):
-                            # a named mask: bound once to `t >= t_cur`
+                            # a named mask: bound once to `d != 0`
                             defs_ = [q for q in ast.walk(f.node) if isinstance(q, (ast.Assign, ast.AnnAssign)) and getattr(q, "value", None) is not None
                                      and src(q.targets[0] if isinstance(q, ast.Assign) else q.target) == t.slice.id]
-                            okm = len(defs_) == 1 and src(defs_[0].value).replace(" ", "") in ("t>=t_cur", "t_cur<=t")
+                            okm = len(defs_) == 1 and src(defs_[0].value).replace(" ", "") in FREE_
                         obs.append(ob("PIN", "after the walk only the variables not reached are written", f, s, okm,
-                                      f"`{short(s, 70)}`" + ("" if okm else ": writes entries the walk may have pinned"),
+                                      f"`{short(s, 70)}`" + ("" if okm else ": writes entries the walk may have pinned (with tied breakpoints, `t >= t_cur` selects a variable already fixed at t_cur)"),
                                       construct=f"after the walk: {short(s, 50)}"))
     return obs
